@@ -1273,7 +1273,7 @@ class Session:
                     n_out = sum(1 for _, st in stmt_paths(self.procs[pid_out]._loopir_proc) if isinstance(st, LoopIR.For))
                     if n_out <= n_in:
                         extra["pred"] = "loop-dropped"
-            if v["sig"] in ("buffer-differs", "unreported-config-change", "config-differs"):
+            if v["sig"] in ("buffer-differs", "unreported-config-change", "config-differs", "uninitialised-read"):
                 has_cfgarg = any(
                     isinstance(st, LoopIR.Call) and any(isinstance(e, LoopIR.ReadConfig) for e in st.args)
                     for q in (pid_in, pid_out)
@@ -1889,6 +1889,22 @@ def generate_and_run(seed: int, cfg: dict, log_keep=False) -> dict:
             last_ok = name
         if S.viol and not cfg.get("survey"):
             break
+    # optional closing idiom (C18 scripts): inline what is left, resolve windows, normalise index
+    # expressions - the steps after which real schedules are printed and compiled
+    for nm in cfg.get("closing_ops", ()):
+        if S.viol and not cfg.get("survey"):
+            break
+        for _rep in range(2 if nm != "simplify" else 1):
+            pid = live[-1]
+            try:
+                pr = PROPOSERS[nm](r_ops, S, pid, Feat(S.procs[pid]._loopir_proc))
+            except Exception:
+                pr = None
+            if not pr:
+                break
+            k += 1
+            if run_rec({"op": nm, "on": pid, "out": f"r{k}", "args": pr[0], "kw": pr[1], "stale": False}) and S.root_pid(f"r{k}") == "p":
+                live.append(f"r{k}")
     if S.checks.get("pure") and S.viol is None:
         S.check_pure("at end of", "session", with_str=True)
     S.crash.uninstall()
